@@ -190,12 +190,9 @@ def _exec_contagion(case, stats, traces):
         if all(r in (0, 1) for r in (b, bD, mu)):
             eff = (b, bD, mu)
             stats["deterministic_regimes"] = stats.get("deterministic_regimes", 0) + 1
-        elif case["pin"] == "lo":
-            eff = tuple(1 if r > 0 else 0 for r in (b, bD, mu))
-            stats["pinned_exact"] = stats.get("pinned_exact", 0) + 1
-        elif case["pin"] == "hi":
-            eff = tuple(1 if r >= 1 else 0 for r in (b, bD, mu))
-            stats["pinned_exact"] = stats.get("pinned_exact", 0) + 1
+        # (runs whose uniform draws are pinned low / high stay in the mix as extreme outcomes of the random source, but
+        # no exact trajectory is claimed for them: whether an event fires for `u < rate` or for `u >= 1 - rate` is the
+        # implementation's business - see DESIGN 12.8d)
         if eff is not None:
             ref = _reference(spec, set(case["infected"]), case["T"], *eff)
             if any(abs(x - y) > 1e-12 for x, y in zip(res, ref)):
